@@ -28,3 +28,21 @@ Example C01_example :
   filter_free ex_q = true /\ m_find ex_cfg ex_q ex_doc = Ok (sem builtin_registry (fun _ _ _ => false) ex_q ex_doc)
   /\ length (sem builtin_registry (fun _ _ _ => false) ex_q ex_doc) = 16%nat.
 Proof. repeat split; vm_compute; reflexivity. Qed.
+
+(* the same at the level of TEXT: whatever spelling of a filter-free query compile() accepts - shorthand or brackets, either
+   quote style, any blank space - find(text, value) is the RFC nodelist of the query compile() returned; that query is the one
+   the typed token grammar derives from the lexer's tokens for this text (C04_compile_sound_tokens), and the text itself is
+   derivable from the RFC 9535 ABNF character by character (C04_sound) *)
+From JP Require Import Model.Api Model.Lex Model.Tokens Spec.Rfc9535Grammar Proofs.StringProofs Proofs.ParseComplete Proofs.ParseSound Proofs.LexShape Proofs.TextSound.
+Theorem C01_find_text : forall cfg text q v, m_compile cfg text = Ok q -> filter_free q = true ->
+  (1 <= max_depth cfg)%nat -> (nesting v <= max_depth cfg)%nat ->
+  m_env_find cfg text v = Ok (sem (reg cfg) (rx cfg) q v) /\
+  (exists root t e, m_tokenize text = Ok (root :: t ++ [e]) /\ QT cfg q t) /\
+  (forallb is_scalar text = true -> rfc_query text).
+Proof.
+  intros cfg text q v Ec Hf H1 Hn. split; [|split].
+  - unfold m_env_find. rewrite Ec. cbn [bind]. apply find_filter_free; assumption.
+  - destruct (compile_sound_tokens cfg text q Ec) as (root & t & e & Ht & _ & _ & HQ). exists root, t, e. split; assumption.
+  - intros Hs. exact (compile_text_sound cfg text q Hs Ec).
+Qed.
+Print Assumptions C01_find_text.
